@@ -1417,7 +1417,9 @@ class BinaryOperator(SymbolicExpression, ABC):
             for conc in self._conclusion_:
                 required_vars.update(conc._unique_variables_)
         if self._parent_:
-            required_vars.update(self._parent_._required_variables_from_child_(self, when_true))
+            # a true left operand does not decide the operator: it may still come out false.
+            when_iam = None if (child is self.left and when_true) else when_true
+            required_vars.update(self._parent_._required_variables_from_child_(self, when_iam))
         return required_vars
 
 
